@@ -189,3 +189,52 @@ func isSyncHandleType(t types.Type) bool {
 	}
 	return false
 }
+
+// Live: functions reachable from goroutine entries, constructors, exported functions and
+// methods, and package initialisers. Dead private helpers are ignored by the global scans.
+func (p *Prog) Live() map[*ssa.Function]bool {
+	if p.liveCache != nil {
+		return p.liveCache
+	}
+	var roots []*ssa.Function
+	for _, fn := range p.Funcs() {
+		if fn.Parent() != nil {
+			continue
+		}
+		obj, _ := fn.Object().(*types.Func)
+		if fn.Synthetic != "" || fn.Name() == "init" || (obj != nil && obj.Exported()) {
+			roots = append(roots, fn)
+		}
+	}
+	for _, e := range p.GoEntries() {
+		if e.Entry != nil {
+			roots = append(roots, e.Entry)
+		}
+	}
+	live := map[*ssa.Function]bool{}
+	changed := true
+	for _, r := range roots {
+		for f := range p.Reach(r) {
+			live[f] = true
+		}
+	}
+	for changed {
+		changed = false
+		for f := range live {
+			for _, b := range f.Blocks {
+				for _, in := range b.Instrs {
+					if g, ok := in.(*ssa.Go); ok {
+						if e := p.Callee(g); e != nil && !live[e] {
+							for x := range p.Reach(e) {
+								live[x] = true
+							}
+							changed = true
+						}
+					}
+				}
+			}
+		}
+	}
+	p.liveCache = live
+	return live
+}
